@@ -200,7 +200,7 @@ def abort_walk(w, roots, api, bulk, how, n):
         w.seam.reset()
 
 
-def run_walk(level, db, roots, api, bulk=None, policy=None, policy_seed=0, w=None):
+def run_walk(level, db, roots, api, bulk=None, policy=None, policy_seed=0, w=None, reboot_at=None):
     """
     Execute one walk through the public API against a fresh agent.
     Returns (outcome, yielded, world).  outcome: "ok" | "budget" | exception.
@@ -240,6 +240,19 @@ def run_walk(level, db, roots, api, bulk=None, policy=None, policy_seed=0, w=Non
         agen = p.bulkwalk(strs, bulk_size=bulk)
     else:
         raise ValueError(api)
+    if reboot_at is not None:
+        # the device reboots while the walk is under way (before it answers request
+        # number reboot_at): an authenticated client re-synchronises and carries on
+        inner, seen = w.seam.responder, {"n": 0}
+
+        def rebooting(data):
+            seen["n"] += 1
+            if seen["n"] == reboot_at:
+                w.agent.reboot()
+            return inner(data)
+
+        w.seam.responder = rebooting
+        w.seam.budget += 4
     try:
         rows = drive_agen(agen, limit=len(db) * 3 + 50)
     except rig.BudgetExceeded:
@@ -247,6 +260,8 @@ def run_walk(level, db, roots, api, bulk=None, policy=None, policy_seed=0, w=Non
     except Exception as exc:  # noqa: BLE001
         return exc, [], w
     finally:
+        if reboot_at is not None:
+            w.seam.responder = inner
         if (list(oids), list(strs)) != before:
             w.__dict__["_root_lists"].pop(key, None)
             return ArgumentMutated("the caller's root list was changed by the walk: %r -> %r" % ([str(o) for o in before[0]], [str(o) for o in oids])), [], w
